@@ -15,6 +15,7 @@ from vf.rigs.env import Env
 from vf.runner import Ob
 
 LEVEL = "other"
+TECHNIQUE = ('symx over solver-chosen operation histories (re-reading every retained snapshot each step, symbolic timestamps incl. ties) + CrossHair (z3) on the timestamp-lookup / repointing kernels')
 EXPLANATION = (
     "symx/z3 exploration of all operation histories up to the length bound with every retained snapshot re-read "
     "after every step (independent reader) and id/timestamp lookups compared with the reference history; "
